@@ -81,6 +81,8 @@ def missing_store_ok(I, store):
     if not excs:
         # stored unconditionally / on a normal path
         return False, "cache entry is set to None outside an exception handler"
+    entered = {e.data[0] for e in I.events if e.kind == "try_enter"}
+    excs = [x for x in excs if x in entered] or excs      # (handler-type selectors are not try statements)
     exc = excs[-1]
     te = [e for e in I.events if e.kind == "try_enter" and e.data[0] == exc]
     hs = [e for e in I.events if e.kind == "handler" and e.data[0] == exc]
